@@ -2,6 +2,8 @@
 #![allow(clippy::too_many_arguments, clippy::needless_range_loop, clippy::type_complexity)]
 
 pub mod c13;
+pub mod c15;
+pub mod c20;
 
 use pzv_common::driver::{Ctx, install_panic_hook, read_replay};
 
@@ -17,6 +19,8 @@ fn main() {
         let ctx = Ctx::from_args(&prop, &[]);
         let code = match prop.as_str() {
             "C13" => c13::replay(&ctx, &sub, &case),
+            "C15" => c15::replay(&ctx, &sub, &case),
+            "C20" => c20::replay(&ctx, &sub, &case),
             _ => {
                 eprintln!("harness error: pzv-bin cannot replay property {prop}");
                 2
@@ -30,6 +34,14 @@ fn main() {
         "C13" => {
             c13::run(&ctx);
             ctx.finish(c13::RULE, c13::ASSUMPTIONS, &[("edge_directed", 100), ("exhaustive_low_bytes", 1)])
+        }
+        "C15" => {
+            c15::run(&ctx);
+            ctx.finish(c15::RULE, &["parameter set = the shipped test layout (N=256, n_lwe=77, rank 2, block-binary LWE key, CGGI) with the keys of TestContext; operand seeds are generated", "the clear secret key is used only for the final decryption"], &[("via_circuit_bootstrapping", 10), ("program_len>=2", 5), ("prepare_custom", 5)])
+        }
+        "C20" => {
+            c20::run_all(&ctx);
+            ctx.finish(c20::RULE, &["schedules are perturbed (thread counts, oversubscription by the 16 parallel shards, concurrent workloads), not enumerated: a data race that needs one specific interleaving is only sampled", "no yield-injection hook (H3) is installed; the work-item census is replaced by byte equality of every output bit"], &[("threads_not_dividing", 20), ("threads_exceed_items", 10), ("shared_module_concurrent", 20), ("partial_prepare", 20)])
         }
         _ => {
             eprintln!("harness error: unknown property {prop}");
